@@ -3,9 +3,9 @@ from props import prop
 prop("C02", "fault_enumeration",
      "honest client and server (real transport code, vlib/simnet, synctest bubble) run a handshake while the adversary alters "
      "exactly one handshake datagram (discoverable: ClientHello, ServerHello, ClientAck, ServerAuth, ClientAuth; hidden: "
-     "ClientRequestHidden, ServerResponseHidden): xor mask at a byte offset (quick: every 7th offset plus all field-edge offsets, "
-     "masks 0x01/0x80 and 0xff at the edges; thorough: EVERY offset x {0x01,0x80,0xff}), truncation to a length (quick: every 13th "
-     "length plus edges; thorough: every length), extension by 1/16 bytes (informational only - the statement does not cover "
+     "ClientRequestHidden, ServerResponseHidden): xor mask at EVERY byte offset (quick: masks 0x01/0x80, plus 0xff near the edges; thorough: every single-bit mask and "
+     "0xff), truncation to a length (quick: every 5th length plus edges; thorough: every length), truncation after the complete "
+     "datagram was first sent to the server from a third address (primes its shared read buffer), extension by 1/16 bytes (informational only - the statement does not cover "
      "trailing additions), replacement by the same-numbered datagram of another handshake (same / other client identity); plus "
      "rapid-drawn random alterations. Oracle: the party receiving the altered datagram does not complete (client: Handshake "
      "returns an error; server: no established session offered by Accept); whenever both sides complete: equal session id, equal "
